@@ -171,7 +171,7 @@ def run(tier, seed):
     its = items(tier)
     col = stepcheck.explore(its, MONS, H, D, who_fn=lambda sp: F.facility_names(sp)[:3] + ["P"], seed=seed)
     ri = restart_items(tier)
-    ri += stepcheck.resumed_edit_items(("add-component", "move-facility-in"), ks=(1, 2, 3))  # a top-level component appended / a machine moved in at a stop
+    ri += stepcheck.resumed_edit_items(("add-component", "move-facility-in", "resize-placed-component"), ks=(1, 2, 3))  # a top-level component appended / a machine moved in / a placed block re-measured at a stop
     col.merge(stepcheck.explore(ri, MONS, 0, 0, seed=seed))
     col.merge(stepcheck.explore(F.scale_items(("TSLACK",)), MONS, 0, 0, seed=seed))  # medium-sized models (10-14 tasks / workers / machines), long absence lists
     col.merge(stepcheck.explore(F.extra_items(("TSLACK",), calendars=False), MONS, 0, 0, seed=seed))  # other ways of building the object graph; continuations under a revised calendar
